@@ -113,10 +113,14 @@ def build_doc(h):
                 axes.append((aname, "discrete", min(values), df, max(values), values))
             if r.random() < 0.4:
                 a.labelNames = label_names(r)
-            if r.random() < 0.3:
-                a.axisOrdering = r.randint(0, 5)
+            if r.random() < 0.4:
+                # ordering and labels are independent: an ordering (also 0) without labels, labels without
+                # an ordering, or both
+                q_ = r.random()
+                if q_ < 0.75:
+                    a.axisOrdering = r.choice([0, 0, 1, 2, 5])
                 labels = []
-                for _ in range(r.randint(1, 3)):
+                for _ in range(0 if q_ < 0.25 else r.randint(1, 3)):
                     ax = axes[-1]
                     kw = dict(name=r.choice(TEXTS), userValue=user_value(r, ax), elidable=r.random() < 0.3, olderSibling=r.random() < 0.2, labelNames=label_names(r))
                     if ax[1] == "range" and r.random() < 0.4:
